@@ -490,6 +490,37 @@ def red_set(run):
     return set(c["eqp"] for c in run["checks"])
 
 
+
+def bfs_shortest_second_pass(ctx, cases, tag):
+    """C10 'when BFS reports an error, no state at smaller depth breaks the invariant or is a dead end', decided with the
+    implementation's own evidence: for every BFS run that reported an error at depth D >= 2 the same scenario is
+    explored again with the exploration cut so that only states of depth <= D-1 are generated and evaluated (prune:
+    depth > D-2); if THAT run reports an error, a shallower erroneous state exists."""
+    second = []
+    for (sc, D) in cases:
+        if D < 2:
+            continue
+        lines = [l for l in sc[2] if not l.startswith("PRED PRUNE")]
+        k = max(i for i, l in enumerate(lines) if l.startswith("PRED "))
+        lines.insert(k + 1, "PRED PRUNE DEPTHGT %d" % (D - 2))
+        second.append(((sc[0], sc[1] + "-short", lines), sc, D))
+    if not second:
+        return
+    ctx.clauses.add("C10:bfs_shortest")
+    impl = vlib.run_impl([x[0] for x in second], tag + "-short")
+    for (sc2, sc, D) in second:
+        runs = parse_mc(impl.get(sc2[1], []))
+        ctx.count("bfs_shortest_second_pass")
+        if runs and runs[0]["result"] and runs[0]["result"][0] == "ERR" and runs[0]["checks"]:
+            d2 = int(runs[0]["checks"][-1]["d"])
+            if d2 < D:
+                ctx.monitor_failures.append({
+                    "clause": "C10:bfs_shortest",
+                    "detail": "BFS reported an error at depth %d, but exploring the same system only up to depth %d also reports "
+                              "an error (at depth %d): a shallower erroneous state exists" % (D, D - 1, d2),
+                    "scenario": vlib.scenario_text(sc), "impl": impl.get(sc2[1], [])[:40], "seed": ctx.seed, "suite": "MCMATRIX"})
+
+
 def suite_mc_matrix(ctx, can_run_model):
     """every base system under 2 strategies x 3 visited modes (C10, C11, C01 order)"""
     rng = random.Random(ctx.seed * 1000003 + 31)
@@ -513,6 +544,7 @@ def suite_mc_matrix(ctx, can_run_model):
     impl, parsed = mc_run_all(ctx, scs, can_run_model, "mx", with_ref=False)
     ctx.clauses.update(["C10:same_states", "C10:same_verdict", "C10:bfs_shortest", "C11:modes_same_states",
                         "C11:modes_same_verdict"])
+    short_cases = []
     for base, g in groups:
         res = {}
         for key, sc in g.items():
@@ -526,6 +558,10 @@ def suite_mc_matrix(ctx, can_run_model):
         # path may hide shorter ones (DFS).  Compare only what the properties promise for state-based predicates:
         # here the prune is the only non-state-based predicate, so we compare states BELOW the bound by content
         # (red digests contain the depth, so compare within equal strategy across modes with care).
+        for vm in ("FULL", "PARTIAL", "DISABLED"):
+            a0 = res.get(("BFS", vm))
+            if a0 and a0["result"][0] == "ERR" and a0["checks"]:
+                short_cases.append((g[("BFS", vm)], int(a0["checks"][-1]["d"])))
         for vm in ("FULL", "PARTIAL", "DISABLED"):
             a, b = res.get(("BFS", vm)), res.get(("DFS", vm))
             if a and b:
@@ -545,6 +581,11 @@ def suite_mc_matrix(ctx, can_run_model):
         tot = sum(len(r["checks"]) for r in res.values())
         if tot >= 40 and (f["timers"] or f["drop"] or f["dupl"] or f["corrupt"]):
             ctx.nontrivial.add(sc_hash(g[("BFS", "FULL")]))
+    _mx_finish(ctx, short_cases)
+
+
+def _mx_finish(ctx, short_cases):
+    bfs_shortest_second_pass(ctx, short_cases, "mx")
 
 
 def suite_mc_matrix_sb(ctx, can_run_model):
